@@ -689,7 +689,7 @@ func propSpecs() map[string]PropSpec {
 			}
 			return js
 		}})
-	add(PropSpec{ID: "C07", Level: "fault_enumeration", Classes: []string{"crash", "verf"},
+	add(PropSpec{ID: "C07", Level: "fault_enumeration", Classes: []string{"crash", "verf", "content"},
 		Rule: "write-heavy workloads over several files mixing UNSTABLE/DATA_SYNC/FILE_SYNC, COMMIT and metadata operations, Unstable option on/off, clean restarts without flush; every prefix cut + lossy cuts recovered: state must be a reference prefix >= everything acknowledged stable (loss only as a suffix); every WRITE/COMMIT reply checked for committed level and verifier (constant per instance, different across instances); concurrent writers with COMMITs and journal-rejected requests next to them; the directed commit-gate runs of C01; distinct as C01",
 		Plan: func(tier string, seed uint64) []Job {
 			js := withCrash(noJobs, "C07", 8, 150)(tier, seed)
